@@ -91,6 +91,14 @@ func init() {
 		scns = append(scns, c03Races(tier)...)
 		scns = append(scns, c03MultiSourcePanics()...)
 		scns = append(scns, c03HigherOrderAsyncOuter()...)
+		// context cancellation is one more way a stream ends: C14's context scenarios with C03's clauses
+		// (teardown added to the subscription runs exactly once, no library goroutine left blocked)
+		for _, co := range c14CtxOps() {
+			co := co
+			scns = append(scns, fw.Scenario{ID: "C03/ctx/" + co.name, Group: "context", Run: func(c *fw.Ctx) {
+				c.Explore(c14CtxCaseOpt(co.name, co.mk, co.push, true))
+			}})
+		}
 		return scns
 	}
 
@@ -213,6 +221,7 @@ func init() {
 			addRow(row, LP, "pairs")
 		}
 		scns = append(scns, c12Concurrent(tier)...)
+		scns = append(scns, c12Multi(tier)...)
 		return scns
 	}
 }
